@@ -202,6 +202,9 @@ theorem streamInv_stable (full : List Item) : Stable (StreamInv full) where
       | some rs => cases rs <;> exact streamInv_of_same h rfl rfl rfl
   argv s i v _ := streamInv_edited rfl
   argc s n _ := streamInv_edited rfl
+  close s f h := streamInv_of_same h rfl rfl rfl
+  enter s h := streamInv_of_same h rfl rfl rfl
+  leave s h := streamInv_of_same h rfl rfl rfl
   take s r s1 h hn := by
     have h1 := streamInv_nextLine h
     rw [hn] at h1
